@@ -203,3 +203,15 @@ def model_line(cfg, msh, f, geom=None):
     g = qs(geom) if geom is not None else ""
     return "rhs1d %s | %s | %s | %s | %s | %s | %s" % (md, sd, bcs, q(msh.length), qs(msh.xf), g,
                                                         " | ".join(qs(d) for d in f.data))
+
+
+def faces_admissible(cfg, disc):
+    """after disc.rhs(...): all reconstructed face states have positive density/pressure/depth"""
+    m = cfg['model']
+    if m in ('euler', 'nozzle'):
+        pos = [0, 2]
+    elif m == 'sw':
+        pos = [0]
+    else:
+        return True
+    return all(np.all(np.asarray(arr[k]) > 0) for arr in (disc.pL, disc.pR) for k in pos)
